@@ -19,6 +19,10 @@ func genFastqRecord(r *rand.Rand, n int) *fastq.Fastq {
 		nameLen = r.IntN(40)
 	}
 	fq := &fastq.Fastq{Name: randBytesExcl(r, nameLen, noCRLF), Sequence: randBytesExcl(r, n, noCRLF), Quals: randBytesExcl(r, n, noCRLF)}
+	if r.IntN(6) == 0 { // runs and repeats: poly-A / poly-N reads, flat quality strings
+		fq.Sequence = runSeq(r, []byte(pick(r, []string{"ACGT", "ACGTN", "AN", "@+A"})), n)
+		fq.Quals = runSeq(r, []byte(pick(r, []string{"!#I", "!", "@+I~", "FFFF:,#"})), n)
+	}
 	if n > 0 && r.IntN(3) == 0 {
 		fq.Quals[0] = pick(r, []byte{'@', '+', '"', '>'})
 	}
